@@ -528,7 +528,15 @@ pub fn finish(prop: &dyn Prop, tier: Tier, seed: u64, mut m: Merged, t0: Instant
         if f.witness.is_null() {
             continue;
         }
-        let r = catch(|| prop.run_witness(&f.witness));
+        // {"file": "findings/..json"} = witness stored in its own file
+        let witness: Value = match f.witness["file"].as_str() {
+            Some(path) => std::fs::read(format!("{}/{}", verif_dir(), path))
+                .ok()
+                .and_then(|b| serde_json::from_slice(&b).ok())
+                .unwrap_or(Value::Null),
+            None => f.witness.clone(),
+        };
+        let r = catch(|| prop.run_witness(&witness));
         let sigs: Vec<String> = match r {
             Ok(Some(o)) => o.violations.iter().map(|v| v.sig.clone()).collect(),
             Ok(None) => {
